@@ -10,7 +10,7 @@ import time
 VERIF = os.path.dirname(os.path.dirname(os.path.abspath(__file__)))
 REPO = os.environ.get("VERIF_REPO", "/repo")
 CACHE = os.path.join(VERIF, ".cache")
-TARGET = os.path.join(CACHE, "target")
+TARGET = os.environ.get("VERIF_TARGET", os.path.join(CACHE, "target"))   # override: testing a scratch copy next to a running check
 GUARD = "wilfred_garden_verif"
 RUSTFLAGS = f"--cfg {GUARD} --check-cfg cfg({GUARD})"
 
@@ -30,7 +30,8 @@ def garden_bin(profile="debug"):
     cmd = ["cargo", "build", "--offline", "--bin", "garden", "--quiet"]
     if profile == "release":
         cmd.append("--release")
-    lock = open(os.path.join(CACHE, f"build-{profile}.lock"), "w")
+    os.makedirs(TARGET, exist_ok=True)
+    lock = open(os.path.join(TARGET, f"build-{profile}.lock"), "w")
     fcntl.flock(lock, fcntl.LOCK_EX)
     try:
         t = time.time()
